@@ -29,7 +29,7 @@ def main(ck, pid, cfg, tier, seed, replay):
             tr = ck.sh([sys.executable, os.path.join(ck.VERIF, 'translators', 'schema_to_lean.py'), schema_file], cwd=ck.VERIF)
             if tr.returncode != 0:
                 failures.append(dict(stream='schema', kind='TRANSLATE', case='', detail='schema uses a construct outside the modelled subset: ' + tr.stdout[-1500:]))
-    lean = ck.lean_side(pid, cfg)
+    lean = ck.lean_side(pid, cfg)   # runs cfg['translators'] (serde attributes) too
     if replay:
         rp = json.load(open(replay))
         print('replay of a schema case: re-running the stream with the recorded seed; failing case was:', (rp.get('case') or '')[:300])
